@@ -144,6 +144,19 @@ hasperr:
 	}
 }
 
+// compactionPerErr returns the persistent compaction error, if there is one:
+// ErrReadOnly after SetReadOnly, or the corruption a compaction ran into. It
+// never blocks; compactionError offers the error on compPerErrC exactly while
+// it is in its persistent-error state, which it never leaves.
+func (db *DB) compactionPerErr() error {
+	select {
+	case perr := <-db.compPerErrC:
+		return perr
+	default:
+		return nil
+	}
+}
+
 type compactionTransactCounter int
 
 func (cnt *compactionTransactCounter) incr() {
@@ -801,6 +814,16 @@ func (db *DB) mCompaction() {
 		case x = <-db.mcompCmdC:
 			switch x.(type) {
 			case cAuto:
+				// A read-only (or corrupted) DB must not touch its files:
+				// no flush is started once the persistent error is set. The
+				// frozen memdb, if any, stays readable in memory and its
+				// journal is replayed by the next Open.
+				if perr := db.compactionPerErr(); perr != nil {
+					db.logf("memdb@flush exiting (persistent error %q)", perr)
+					x.ack(perr)
+					x = nil
+					return
+				}
 				db.memCompaction()
 				x.ack(nil)
 				x = nil
@@ -868,6 +891,24 @@ func (db *DB) tCompaction() {
 			case <-db.closeC:
 				return
 			}
+		}
+		// A read-only (or corrupted) DB must not touch its files: no table
+		// compaction is started once the persistent error is set, whoever
+		// asked for it (a writer, CompactRange, a seek-triggered request of a
+		// read). Everyone waiting gets the error; later requests get it from
+		// compErrC.
+		if perr := db.compactionPerErr(); perr != nil {
+			db.logf("table@compaction exiting (persistent error %q)", perr)
+			for i := range waitQ {
+				waitQ[i].ack(perr)
+				waitQ[i] = nil
+			}
+			waitQ = waitQ[:0]
+			if x != nil {
+				x.ack(perr)
+				x = nil
+			}
+			return
 		}
 		if x != nil {
 			switch cmd := x.(type) {
